@@ -96,6 +96,7 @@ var mutantCatalogue = map[string][]mutant{
 		{Name: "rollback forgets the replaced writes", File: "risc/app.go", Old: "\t\tfor _, overwritten := range ctx.transactionOverwritten[register] {\n\t\t\tif overwritten.sequenceID < sequenceID && (tu.sequenceID >= sequenceID || overwritten.sequenceID > tu.sequenceID) {\n\t\t\t\ttu = overwritten\n\t\t\t}\n\t\t}\n", New: ""},
 	},
 	"C07": {
+		{Name: "per-cycle branch flag never lowered", File: "proc/mvp6-1/cu.go", Old: "\tu.pushedBranchInCurrentCycle = false\n", New: ""},
 		{Name: "jump resolution never ends the decode stall", File: "proc/mvp6-1/bu.go", Old: "u.du.notifyBranchResolved()", New: "_ = u"},
 		{Name: "resolved branch leaves the flag raised (6.1)", File: "proc/mvp6-1/bu.go", Old: "u.cu.notifyConditionalBranch()", New: "_ = u"},
 		{Name: "no-effect instruction never released", File: "proc/mvp6-2/wu.go", Old: "\t} else {\n\t\tu.ctx.DeletePendingRegisters(execution.ReadRegisters, execution.WriteRegisters)\n", New: "\t} else {\n"},
@@ -141,6 +142,7 @@ var mutantCatalogue = map[string][]mutant{
 		{Name: "queue dispatch forgets the branch flag", File: "proc/mvp7-1/cu.go", Old: "\t\t\tif runner.Runner.InstructionType().IsConditionalBranch() {\n\t\t\t\tu.pendingConditionalBranch = true\n\t\t\t}\n\t\t} else {\n\t\t\tu.skippedInCurrentCycle = append(u.skippedInCurrentCycle, runner)", New: "\t\t} else {\n\t\t\tu.skippedInCurrentCycle = append(u.skippedInCurrentCycle, runner)"},
 	},
 	"C03": {
+		{Name: "units stepped after a flush request do not see the limit", File: "proc/mvp6-1/cpu.go", Old: "\t\t\teu.sequenceID = sequenceID\n\t\t\tresp := eu.Cycle(euReq{cycle, m.ctx, app})", New: "\t\t\tresp := eu.Cycle(euReq{cycle, m.ctx, app})"},
 		{Name: "fetched pcs behind a jump are kept", File: "proc/mvp6-1/fu.go", Old: "fu.outBus.Clean()", New: "_ = fu"},
 		{Name: "sequence filter applies when NO limit is set", File: "proc/mvp6-3/wu.go", Old: "if r.sequenceID != -1 && execution.SequenceID > r.sequenceID {", New: "if r.sequenceID == -1 && execution.SequenceID > r.sequenceID {"},
 		{Name: "sequence filter negated", File: "proc/mvp7-0/wu.go", Old: "if r.sequenceID != -1 && execution.SequenceID > r.sequenceID {", New: "if !(r.sequenceID != -1 && execution.SequenceID > r.sequenceID) {"},
